@@ -62,6 +62,7 @@ def offsets_loops(gen_text):
     except mc.Unsupported as e:
         die('pattern offsets (AST): ' + str(e))
     arity_names = set()
+    ptr_names = set()          # locals holding method.slots_strides_ptr
 
     def lin(e, var):
         """linear form {a: coefficient of arity, i: of the loop variable, c: constant} of an index expression, or die"""
@@ -87,7 +88,8 @@ def offsets_loops(gen_text):
         """the index expressions of every method.slots_strides_ptr[...] inside node"""
         out = []
         if isinstance(node, tuple):
-            if node and node[0] == 'index' and node[1] == ('member', ('id', 'method'), 'slots_strides_ptr', False):
+            if node and node[0] == 'index' and (node[1] == ('member', ('id', 'method'), 'slots_strides_ptr', False)
+                                                or (node[1][0] == 'id' and node[1][1] in ptr_names)):
                 out.append(node[2])
             for x in node:
                 out += find_index(x)
@@ -104,6 +106,9 @@ def offsets_loops(gen_text):
         for st in stmts:
             if st[0] == 'decl' and len(st[2]) == 1 and st[2][0][1] == ('call', ('member', ('id', 'method'), 'arity', False), []):
                 arity_names.add(st[2][0][0])
+                continue
+            if st[0] == 'decl' and len(st[2]) == 1 and st[2][0][1] == ('member', ('id', 'method'), 'slots_strides_ptr', False):
+                ptr_names.add(st[2][0][0])
                 continue
             if st[0] == 'for':
                 loops.append((st, in_if))
@@ -188,7 +193,9 @@ def main():
         r'check_static_offset<static_slot_error>\(\s*\n\s*this->slots_strides\[([^\]]+)\], slot\);\s*\n\s*check_static_offset<static_stride_error>\(\s*\n'
         r'\s*this->slots_strides\[([^\]]+)\], stride\);', c, CORE)
     one('check_first',
-        r'check_static_offset<static_slot_error>\(\s*\n\s*static_offsets<method>::slots\[0\], this->slots_strides\[0\]\);', c, CORE, count=2)
+        r'(?:check_static_offset<static_slot_error>\(\s*static_offsets<method>::slots\[0\]'
+        r'|slot = static_offsets<method>::slots\[0\];\s*(?:if constexpr \([^()]*runtime_checks>\) \{\s*)?check_static_offset<static_slot_error>\(\s*slot),'
+        r'\s*this->slots_strides\[0\]\);', c, CORE, count=2)
     one('check_cmp', r'if \(actual != expected\) \{', c, CORE)
     one('static_reads',
         r'slot = static_offsets<method>::slots\[VirtualArg\];\s*\n\s*stride = static_offsets<method>::strides\[VirtualArg - 1\];', c, CORE)
